@@ -1163,10 +1163,10 @@ class Arithmetic(Expr):
         # check for single ASCII characters
         if self.expr.startswith('\'') and self.expr.endswith('\''):
             c = self.expr[1:-1]
-            c = c.encode('utf-8').decode('unicode_escape')
             try:
+                c = c.encode('utf-8').decode('unicode_escape')
                 return ord(c)
-            except TypeError:
+            except (TypeError, UnicodeDecodeError):
                 raise AssemblerError('invalid char literal in expr: "{}"'.format(self.expr), line)
 
         try:
@@ -2188,7 +2188,11 @@ def lex_tokens(line):
     match = RE_ERROR.match(line.contents)
     if match is not None:
         message = match.group(1)
-        message = message.encode('utf-8').decode('unicode_escape')
+        try:
+            message = message.encode('utf-8').decode('unicode_escape')
+        except UnicodeDecodeError:
+            # a malformed escape in the message: report the message as written
+            pass
         tokens = ['error', message]
         return LineTokens(line, tokens)
 
@@ -2197,7 +2201,10 @@ def lex_tokens(line):
     if match is not None:
         value = match.group(1)
         # process backslash escapes without mangling non-ASCII characters
-        value = value.encode('latin-1', 'backslashreplace').decode('unicode_escape')
+        try:
+            value = value.encode('latin-1', 'backslashreplace').decode('unicode_escape')
+        except UnicodeDecodeError:
+            raise AssemblerError('invalid escape sequence in string: "{}"'.format(value), line)
         tokens = ['string', value]
         return LineTokens(line, tokens)
 
